@@ -158,7 +158,7 @@ theorem opAt_hon_umap_at {w : World} {s : Shape} {v : Val} (c : PCtx w .A s v) (
     (hp : HonPath s v w.a.base π w.a.root T) (hT : Hon (.umap kw e) (.umap vs) (w.a.base + offsetOf s v π) T)
     (op : Op) (hs : simpleOp op = true) (k : List Nat) (init : Init) (hop : InsOp op k init)
     (hhas : Spec.hasUKey (rdLE k) vs = true)
-    (hstart : ∀ (x : Val) (B : Nat), ∃ a, startAddr (treeOf e x B) = some a)
+    (hstart : ∀ (x : Val) (B : Nat), valid e x = true → ∃ a, startAddr (treeOf e x B) = some a)
     (hcmd : match Spec.applyNode (.umap kw e) (.umap vs) op with
       | .ok (u', _) => (plug s v π (encode (.umap kw e) u')).length ≤ w.a.mem.orig + maxIncrease
       | .error er => er ≠ .initFail) :
@@ -276,7 +276,7 @@ theorem opAt_hon_umap_at {w : World} {s : Shape} {v : Val} (c : PCtx w .A s v) (
         obtain ⟨root2, T2, hrunE, hp2, hsa2⟩ : ∃ root2 T2, runEvs w w.a R1 evs = .ok root2
             ∧ HonPath s (subst s v (π ++ [Step.elem j]) (denote e init)) w.a.base (π ++ [Step.elem j]) root2 T2
             ∧ startAddr T2 = some (w.a.base + offsetOf s v (π ++ [Step.elem j])) := by
-          obtain ⟨a0, ha0⟩ := hstart vs[j].2 (w.a.base + offsetOf s v (π ++ [Step.elem j]))
+          obtain ⟨a0, ha0⟩ := hstart vs[j].2 (w.a.base + offsetOf s v (π ++ [Step.elem j])) gold.valid
           have ha0' : a0 = w.a.base + offsetOf s v (π ++ [Step.elem j]) :=
             startAddr_hon e vs[j].2 _ _ a0 gold (hon_treeOf e _ _) (by intro d i hd; subst hd; simp [Shape.okAux] at hoke) ha0
           subst ha0'
@@ -367,7 +367,7 @@ theorem opAt_hon_umap_at {w : World} {s : Shape} {v : Val} (c : PCtx w .A s v) (
         rcases hrun R1 _ hp1' (hon_treeOf e _ _) with ⟨e', hspec, h, hre⟩ | ⟨u', r', m1, hspec, heq2, _⟩
         · cases h
           simp only [hre, Bool.false_eq_true, if_false, StepRes]
-          refine ⟨v, .umap vs, t1, ?_, hres, ?_, ?_, rfl, rfl, rfl, rfl, rfl, rfl, Or.inr ⟨_, hspec, rfl, rfl, rfl⟩⟩
+          refine ⟨v, .umap vs, t1, ?_, hres, ?_, ?_, rfl, rfl, rfl, rfl, rfl, rfl, Or.inr (Or.inl ⟨_, hspec, rfl, rfl, rfl⟩)⟩
           · exact pctx_after c w.a.mem R1 c.good hbytes rfl rfl (by rw [← hbytes]; exact hfit)
           · simpa [World.set, World.get] using hp1
           · simpa [World.set, World.get] using hT1
